@@ -2,6 +2,7 @@ TL = "crates/tower-resilience-timelimiter/src/"
 FB = "crates/tower-resilience-fallback/src/"
 MUTSELF = ("sub", "R16-mut-self", r"\A", "", 0)
 WRAP = ("wrapcalls", "R6-closure-wrap", r"(?:std::sync::)?Arc::new", "vx_wrap()", -1)
+WRAPID = ("wrapcalls", "R6-closure-wrap", r"(?:std::sync::)?Arc::new", "vx_wrap_of({args})", -1)
 def setter(*extra):
     # `mut self` setters: the template declares `self` by value; re-bind it mutably at the start of the body
     return dict(file="fbconfig", rules=[("sub", "R16-mut-self", r"\bself\b", "self_", -1), ("inject", None, "start", "let mut self_ = self;")] + list(extra))
@@ -30,12 +31,12 @@ UNIT = dict(
         "FallbackConfigBuilder::new": dict(file="fbconfig", rules=[("sub", "R6-name", r"\"[^\"]*\"\.to_string\(\)", "vx_wrap()", 1)]),
         "FallbackConfigBuilder::default@Default": dict(file="fbconfig"),
         "FallbackConfigBuilder::value": setter(),
-        "FallbackConfigBuilder::value_fn": setter(WRAP),
-        "FallbackConfigBuilder::from_error": setter(WRAP),
-        "FallbackConfigBuilder::from_request_error": setter(WRAP),
+        "FallbackConfigBuilder::value_fn": setter(WRAPID),
+        "FallbackConfigBuilder::from_error": setter(WRAPID),
+        "FallbackConfigBuilder::from_request_error": setter(WRAPID),
         "FallbackConfigBuilder::service": setter(WRAP, ("sub", "R9-paths", r"crate::ServiceFn<Req, Res, E>", "StrategyFn", -1)),
-        "FallbackConfigBuilder::exception": setter(WRAP),
-        "FallbackConfigBuilder::handle": setter(WRAP),
+        "FallbackConfigBuilder::exception": setter(WRAPID),
+        "FallbackConfigBuilder::handle": setter(WRAPID),
         "FallbackConfigBuilder::build": dict(file="fbconfig", rules=[
             ("sub", "R9-paths", r"crate::FallbackLayer", "FallbackLayer", -1),
             ("sub", "expect", r"\.expect\(\"[^\"]*\"\)", ".unwrap()", 1),
